@@ -120,6 +120,8 @@ pub open spec fn abs_diff(a: int, b: int) -> int { if a - b < 0 { b - a } else {
 //@STRUCT file=src/tyme/eightchar/mod.rs struct=ChildLimitInfo
 //@STRUCT file=src/tyme/eightchar/provider.rs struct=AbstractChildLimitProvider derive="Clone, Copy"
 //@STRUCT file=src/tyme/eightchar/provider.rs struct=DefaultChildLimitProvider derive="Clone, Copy"
+//@STRUCT file=src/tyme/eightchar/provider.rs struct=China95ChildLimitProvider derive="Clone, Copy"
+//@STRUCT file=src/tyme/eightchar/provider.rs struct=LunarSect2ChildLimitProvider derive="Clone, Copy"
 
 impl AbstractChildLimitProvider {
     //@EXTRACT file=src/tyme/eightchar/provider.rs impl="impl AbstractChildLimitProvider" fn=next loops=1
@@ -164,6 +166,38 @@ impl DefaultChildLimitProvider {
             259200 * r.year_count + 21600 * r.month_count + 720 * r.day_count + 30 * r.hour_count + r.minute_count / 2 == abs_diff(term.ti(), birth_time.abs()),
             r.month_count < 12, r.day_count < 30, r.hour_count < 24, r.minute_count < 60, r.minute_count % 2 == 0,
             r.year_count <= 10,                                          // hence the limit ends at most about eleven years after birth
+            r.start_time == birth_time,
+    //@END
+}
+
+
+// the two minute-based strategies: 3 days = 1 year, 1 day = 4 months, 2 hours = 10 days; sect 2 also 1 minute = 2 hours... (12 min = 1 day)
+impl China95ChildLimitProvider {
+    //@EXTRACT file=src/tyme/eightchar/provider.rs impl="impl ChildLimitProvider for China95ChildLimitProvider" fn=get_info
+    //@body_start
+        proof { lemma_carry_bounds_all(); }
+    //@sig
+        requires birth_time.wf(), birth_time.ord() + 12 * 4000 + 20 <= ORD_MAX,
+                 birth_time.ord() + 200 < OCT_1582 || birth_time.ord() > OCT_1582,
+                 abs_diff(term.ti(), birth_time.abs()) <= 86400 * 32,
+        ensures
+            4320 * r.year_count + 360 * r.month_count + 12 * r.day_count <= abs_diff(term.ti(), birth_time.abs()) / 60,
+            abs_diff(term.ti(), birth_time.abs()) / 60 < 4320 * r.year_count + 360 * r.month_count + 12 * r.day_count + 12,
+            r.month_count < 12, r.day_count < 30, r.hour_count == 0, r.minute_count == 0, r.year_count <= 10,
+            r.start_time == birth_time,
+    //@END
+}
+impl LunarSect2ChildLimitProvider {
+    //@EXTRACT file=src/tyme/eightchar/provider.rs impl="impl ChildLimitProvider for LunarSect2ChildLimitProvider" fn=get_info
+    //@body_start
+        proof { lemma_carry_bounds_all(); }
+    //@sig
+        requires birth_time.wf(), birth_time.ord() + 12 * 4000 + 20 <= ORD_MAX,
+                 birth_time.ord() + 200 < OCT_1582 || birth_time.ord() > OCT_1582,
+                 abs_diff(term.ti(), birth_time.abs()) <= 86400 * 32,
+        ensures
+            4320 * r.year_count + 360 * r.month_count + 12 * r.day_count + r.hour_count / 2 == abs_diff(term.ti(), birth_time.abs()) / 60,
+            r.month_count < 12, r.day_count < 30, r.hour_count < 24, r.hour_count % 2 == 0, r.minute_count == 0, r.year_count <= 10,
             r.start_time == birth_time,
     //@END
 }
